@@ -198,7 +198,13 @@ func findFiles(cwd string, patterns []string) (_ []sourcePath, err error) {
 		}
 
 		for _, f := range fs {
-			files[f.Absolute] = f
+			// Arguments that pass through a symbolic link to a directory
+			// reach the same file under another name: it is one file.
+			key := f.Absolute
+			if resolved, err := filepath.EvalSymlinks(key); err == nil {
+				key = resolved
+			}
+			files[key] = f
 		}
 	}
 
